@@ -1,6 +1,7 @@
 package main
 
 import (
+	"strconv"
 	"archive/zip"
 	"bytes"
 	"fmt"
@@ -390,7 +391,7 @@ func (c *Ctx) checkHistC04x(h hist, cases *[]mcase, stripped bool) {
 }
 
 func runC04(c *Ctx) {
-	c.R.Rule = "sheet states built by write histories (sparse/dense rows, gaps, styled-but-empty cells, formulas without cached values, merges, row/col attributes), also re-opened with the r attributes of cells and/or rows stripped from the worksheet XML; cell-by-cell comparison of GetCellValue, GetRows, Rows, GetCols, Cols (formatted and raw) and SearchSheet (literal and regexp); batch of ~700 read-only calls with valid and invalid arguments (panic = failure); observation and saved content before vs after; GetRows(raw) vs the extracted model reader. non-trivial = history of >= 3 ops"
+	c.R.Rule = "sheet states built by write histories (sparse/dense rows, gaps, styled-but-empty cells, formulas without cached values, merges, row/col attributes), also re-opened with the r attributes of cells and/or rows stripped from the worksheet XML; cell-by-cell comparison of GetCellValue, GetRows, Rows, GetCols, Cols (formatted and raw) and SearchSheet (literal and regexp); batch of ~700 read-only calls with valid and invalid arguments (panic = failure); observation and saved content before vs after; GetRows(raw) vs the extracted model reader; a workbook opened with its parts unzipped to temp files (UnzipXMLSizeLimit 1/64/700/1500), 15 kinds of reads in every ordered pair and random orders, each answer against a freshly opened default-limit workbook. non-trivial = history of >= 3 ops"
 	n := 240
 	if c.Thorough() {
 		n = 6000
@@ -429,6 +430,11 @@ func runC04(c *Ctx) {
 		f.Close()
 	}
 	c.overlapMergeProbe("C04")
+	nsp := 330
+	if c.Thorough() {
+		nsp = 6000
+	}
+	c.c04Spilled(nsp)
 }
 
 func partDiff(a, b []string) []string {
@@ -443,4 +449,115 @@ func partDiff(a, b []string) []string {
 		}
 	}
 	return out
+}
+
+// reads of a workbook whose parts were unzipped to temp files (UnzipXMLSizeLimit below their size), in every order
+// of first touch: each read must answer what the same read answers on a freshly opened default-limit workbook -
+// no read may change what a later read returns
+func (c *Ctx) c04Spilled(n int) {
+	src := excelize.NewFile()
+	src.NewSheet("Text")
+	for r := 1; r <= 6; r++ {
+		src.SetCellValue("Sheet1", "A"+strconv.Itoa(r), r*11)
+		src.SetCellValue("Sheet1", "B"+strconv.Itoa(r), float64(r)/4)
+		src.SetCellValue("Text", "A"+strconv.Itoa(r), fmt.Sprintf("text %d <&>", r))
+		src.SetCellValue("Text", "B"+strconv.Itoa(r), r)
+	}
+	src.SetCellFormula("Sheet1", "C1", "A1+B1")
+	src.SetCellRichText("Text", "C2", []excelize.RichTextRun{{Text: "rich "}, {Text: "run", Font: &excelize.Font{Bold: true}}})
+	src.MergeCell("Text", "D1", "E2")
+	src.SetCellValue("Text", "D1", "merged")
+	buf, err := src.WriteToBuffer()
+	src.Close()
+	if err != nil {
+		return
+	}
+	type rop struct {
+		Name string `json:"read"`
+		run  func(f *excelize.File) string
+	}
+	ops := []rop{
+		{"GetCellValue(Sheet1!A2)", func(f *excelize.File) string { v, e := f.GetCellValue("Sheet1", "A2"); return fmt.Sprint(v, e) }},
+		{"GetCellValue(Text!A3)", func(f *excelize.File) string { v, e := f.GetCellValue("Text", "A3"); return fmt.Sprint(v, e) }},
+		{"GetCellRichText(Text!C2)", func(f *excelize.File) string {
+			rt, e := f.GetCellRichText("Text", "C2")
+			s := ""
+			for _, r := range rt {
+				s += "{" + r.Text + "}"
+			}
+			return fmt.Sprint(s, e)
+		}},
+		{"GetCellRichText(Text!A1)", func(f *excelize.File) string {
+			rt, e := f.GetCellRichText("Text", "A1")
+			s := ""
+			for _, r := range rt {
+				s += "{" + r.Text + "}"
+			}
+			return fmt.Sprint(s, e)
+		}},
+		{"GetRows(Sheet1)", func(f *excelize.File) string { v, e := f.GetRows("Sheet1"); return fmt.Sprintf("%q %v", v, e) }},
+		{"GetRows(Text)", func(f *excelize.File) string { v, e := f.GetRows("Text"); return fmt.Sprintf("%q %v", v, e) }},
+		{"GetCols(Text)", func(f *excelize.File) string { v, e := f.GetCols("Text"); return fmt.Sprintf("%q %v", v, e) }},
+		{"GetCols(Sheet1)", func(f *excelize.File) string { v, e := f.GetCols("Sheet1"); return fmt.Sprintf("%q %v", v, e) }},
+		{"SearchSheet(Text, text 4 <&>)", func(f *excelize.File) string { v, e := f.SearchSheet("Text", "text 4 <&>"); return fmt.Sprint(v, e) }},
+		{"SearchSheet(Sheet1, 22)", func(f *excelize.File) string { v, e := f.SearchSheet("Sheet1", "22"); return fmt.Sprint(v, e) }},
+		{"GetCellFormula(Sheet1!C1)", func(f *excelize.File) string { v, e := f.GetCellFormula("Sheet1", "C1"); return fmt.Sprint(v, e) }},
+		{"GetCellType(Text!A1)", func(f *excelize.File) string { v, e := f.GetCellType("Text", "A1"); return fmt.Sprint(v, e) }},
+		{"GetMergeCells(Text)", func(f *excelize.File) string {
+			v, e := f.GetMergeCells("Text")
+			s := ""
+			for _, m := range v {
+				s += m.GetStartAxis() + ":" + m.GetEndAxis() + "=" + m.GetCellValue() + ";"
+			}
+			return fmt.Sprint(s, e)
+		}},
+		{"CalcCellValue(Sheet1!C1)", func(f *excelize.File) string { v, e := f.CalcCellValue("Sheet1", "C1"); return fmt.Sprint(v, e) }},
+		{"GetSheetDimension(Text)", func(f *excelize.File) string { v, e := f.GetSheetDimension("Text"); return fmt.Sprint(v, e) }},
+	}
+	want := make([]string, len(ops))
+	for i, o := range ops {
+		g, err := excelize.OpenReader(bytes.NewReader(buf.Bytes()))
+		if err != nil {
+			return
+		}
+		want[i] = o.run(g)
+		g.Close()
+	}
+	limits := []int64{1, 64, 700, 1500}
+	for k := 0; k < n; k++ {
+		lim := limits[k%len(limits)]
+		var seq []int
+		if k < len(ops)*len(ops) {
+			// every ordered pair of reads first
+			seq = []int{k / len(ops), k % len(ops)}
+			seq = append(seq, c.Rng.Intn(len(ops)), 1, 2, 5)
+		} else {
+			for j := 3 + c.Rng.Intn(6); j > 0; j-- {
+				seq = append(seq, c.Rng.Intn(len(ops)))
+			}
+		}
+		var names []string
+		for _, i := range seq {
+			names = append(names, ops[i].Name)
+		}
+		desc := map[string]interface{}{"UnzipXMLSizeLimit": lim, "reads_in_order": names}
+		c.guard("C04_no_panic", desc, func() {
+			f, err := excelize.OpenReader(bytes.NewReader(buf.Bytes()), excelize.Options{UnzipXMLSizeLimit: lim})
+			if err != nil {
+				c.Fail("oracle", "C04_pure", desc, "open failed: "+err.Error(), "")
+				return
+			}
+			defer f.Close()
+			c.Count("spilled-reads", true, fmt.Sprint(lim, seq))
+			for step, i := range seq {
+				if got := ops[i].run(f); got != want[i] {
+					c.Fail("oracle", "C04_pure", desc, fmt.Sprintf("read %d, %s, answers %s; on a freshly opened workbook it answers %s: an earlier read changed it", step+1, ops[i].Name, got, want[i]), "")
+					return
+				}
+			}
+		})
+		if len(c.R.Failures) >= 3 {
+			return
+		}
+	}
 }
